@@ -20,12 +20,131 @@ import (
 // about are uninterpreted (the induction hypothesis).
 func RegisterSpecs(c *Ctx) {
 	e := c.E
+	registerComposeSpec(c)
 	argType := func(env *vc.SpecEnv, x spec.Expr) (*geval.SymType, error) {
 		v, err := e.EvalSpec(env, x)
 		if err != nil {
 			return nil, err
 		}
 		return c.SymTypeOf(v)
+	}
+	// param0(T)..param3(T), result0(T)..: components of a signature type
+	for _, which := range []string{"param", "result"} {
+		for i := 0; i < 4; i++ {
+			which, i := which, i
+			e.Specs[fmt.Sprintf("%s%d", which, i)] = func(e *vc.Engine, env *vc.SpecEnv, args []spec.Expr) (vc.Val, error) {
+				t, err := argType(env, args[0])
+				if err != nil {
+					return vc.Val{}, err
+				}
+				f := c.In.fact(t)
+				tup := f.Params
+				if which == "result" {
+					tup = f.Results
+				}
+				if tup == nil || i >= len(tup.Vars) {
+					return vc.Val{}, fmt.Errorf("spec: %s%d(%s): no such component on this path", which, i, t)
+				}
+				return c.typeVal(tup.Vars[i].Type), nil
+			}
+		}
+	}
+	// result(i, f, args...): the i-th result of applying the function value f
+	e.Specs["result"] = func(e *vc.Engine, env *vc.SpecEnv, args []spec.Expr) (vc.Val, error) {
+		if len(args) < 2 {
+			return vc.Val{}, fmt.Errorf("spec: result(i, f, args...)")
+		}
+		il, ok := args[0].(*spec.IntLit)
+		if !ok {
+			return vc.Val{}, fmt.Errorf("spec: result(i, ...): i must be a literal")
+		}
+		fv, err := e.EvalSpec(env, args[1])
+		if err != nil {
+			return vc.Val{}, err
+		}
+		sig, ok := fv.Ty.Underlying().(*types.Signature)
+		if !ok || il.Val >= sig.Results().Len() {
+			return vc.Val{}, fmt.Errorf("spec: result(%d, %s): not a function with that many results", il.Val, args[1])
+		}
+		var as []vc.Val
+		for _, a := range args[2:] {
+			v, err := e.EvalSpec(env, a)
+			if err != nil {
+				return vc.Val{}, err
+			}
+			as = append(as, v)
+		}
+		return e.ApplyTerm(fv, as, sig, il.Val), nil
+	}
+	// sumLen(ll, i): total length of ll[0..i) (recursion equations; monotone: lemma by induction)
+	e.Specs["sumLen"] = func(e *vc.Engine, env *vc.SpecEnv, args []spec.Expr) (vc.Val, error) {
+		if len(args) != 2 {
+			return vc.Val{}, fmt.Errorf("spec: sumLen(ll, i)")
+		}
+		l, err := e.EvalSpec(env, args[0])
+		if err != nil {
+			return vc.Val{}, err
+		}
+		i, err := e.EvalSpec(env, args[1])
+		if err != nil {
+			return vc.Val{}, err
+		}
+		if !e.Decls.HasFun("sumLen") {
+			e.Decls.Fun("sumLen", []smt.Sort{smt.V, smt.Int}, smt.Int)
+			ll, ii := smt.T{S: "l", Sort: smt.V}, smt.T{S: "i", Sort: smt.Int}
+			sum := func(x smt.T) smt.T { return smt.App(smt.Int, "sumLen", ll, x) }
+			e.Axioms = append(e.Axioms, smt.Forall([]smt.Bound{{Name: "l", Sort: smt.V}}, smt.Eq(sum(smt.IntLit(0)), smt.IntLit(0))))
+			prev := smt.Sub(ii, smt.IntLit(1))
+			bs := []smt.Bound{{Name: "l", Sort: smt.V}, {Name: "i", Sort: smt.Int}}
+			e.Axioms = append(e.Axioms, smt.Forall(bs, smt.Implies(smt.Gt(ii, smt.IntLit(0)), smt.Eq(sum(ii), smt.Add(sum(prev), smt.App(smt.Int, "s_len", smt.App(smt.V, "s_at", ll, prev))))), sum(ii)))
+			aa, bb := smt.T{S: "a", Sort: smt.Int}, smt.T{S: "b", Sort: smt.Int}
+			bs2 := []smt.Bound{{Name: "l", Sort: smt.V}, {Name: "a", Sort: smt.Int}, {Name: "b", Sort: smt.Int}}
+			// lemma (induction on b): sumLen(a) + len(l[a]) <= sumLen(b) for a < b, and sumLen >= 0
+			e.Axioms = append(e.Axioms, smt.Forall(bs2, smt.Implies(smt.And(smt.Le(smt.IntLit(0), aa), smt.Lt(aa, bb)),
+				smt.Le(smt.Add(sum(aa), smt.App(smt.Int, "s_len", smt.App(smt.V, "s_at", ll, aa))), sum(bb))), sum(aa), sum(bb)))
+			e.Axioms = append(e.Axioms, smt.Forall(bs, smt.Implies(smt.Ge(ii, smt.IntLit(0)), smt.Ge(sum(ii), smt.IntLit(0))), sum(ii)))
+		}
+		return vc.Val{T: smt.App(smt.Int, "sumLen", l.T, i.T), Ty: types.Typ[types.Int]}, nil
+	}
+	e.Specs["strJoin"] = func(e *vc.Engine, env *vc.SpecEnv, args []spec.Expr) (vc.Val, error) {
+		l, err := e.EvalSpec(env, args[0])
+		if err != nil {
+			return vc.Val{}, err
+		}
+		sp, err := e.EvalSpec(env, args[1])
+		if err != nil {
+			return vc.Val{}, err
+		}
+		e.Decls.Fun("strJoin", []smt.Sort{smt.V, smt.V}, smt.V)
+		return vc.Val{T: smt.App(smt.V, "strJoin", l.T, sp.T), Ty: types.Typ[types.String]}, nil
+	}
+	// Zero(T): the zero value of a symbolic type
+	e.Specs["Zero"] = func(e *vc.Engine, env *vc.SpecEnv, args []spec.Expr) (vc.Val, error) {
+		t, err := argType(env, args[0])
+		if err != nil {
+			return vc.Val{}, err
+		}
+		return c.ZeroOfSym(t), nil
+	}
+	e.Specs["runeCount"] = func(e *vc.Engine, env *vc.SpecEnv, args []spec.Expr) (vc.Val, error) {
+		v, err := e.EvalSpec(env, args[0])
+		if err != nil {
+			return vc.Val{}, err
+		}
+		e.Decls.Fun("rune_count", []smt.Sort{smt.V}, smt.Int)
+		return vc.Val{T: smt.App(smt.Int, "rune_count", v.T), Ty: types.Typ[types.Int]}, nil
+	}
+	e.Specs["runeAt"] = func(e *vc.Engine, env *vc.SpecEnv, args []spec.Expr) (vc.Val, error) {
+		v, err := e.EvalSpec(env, args[0])
+		if err != nil {
+			return vc.Val{}, err
+		}
+		k, err := e.EvalSpec(env, args[1])
+		if err != nil {
+			return vc.Val{}, err
+		}
+		e.Decls.Fun("rune_at", []smt.Sort{smt.V, smt.Int}, smt.Int)
+		return vc.Val{T: smt.App(smt.Int, "rune_at", v.T, k.T), Ty: types.Typ[types.Rune]}, nil
 	}
 	e.Specs["elem"] = func(e *vc.Engine, env *vc.SpecEnv, args []spec.Expr) (vc.Val, error) {
 		t, err := argType(env, args[0])
@@ -530,9 +649,52 @@ func (c *Ctx) reflectHook(e *vc.Engine, st *vc.State, call *ast.CallExpr, se *as
 
 // convHook: unsafe.Pointer(x.UnsafeAddr()) is the pointer x stands for.
 func convHook(e *vc.Engine, st *vc.State, v vc.Val, to types.Type) (vc.Val, bool) {
+	// []rune(s): the runes of s in order
+	if sl, ok := to.Underlying().(*types.Slice); ok && v.Ty != nil {
+		if b, ok := sl.Elem().Underlying().(*types.Basic); ok && b.Kind() == types.Int32 {
+			if vb, ok := v.Ty.Underlying().(*types.Basic); ok && vb.Info()&types.IsString != 0 {
+				e.Decls.Fun("rune_count", []smt.Sort{smt.V}, smt.Int)
+				e.Decls.Fun("rune_at", []smt.Sort{smt.V, smt.Int}, smt.Int)
+				r := e.Fresh("runes", smt.V)
+				st.Assume(smt.Eq(smt.App(smt.Int, "s_len", r), smt.App(smt.Int, "rune_count", v.T)))
+				st.Assume(smt.Ge(smt.App(smt.Int, "rune_count", v.T), smt.IntLit(0)))
+				k := smt.T{S: "k?r", Sort: smt.Int}
+				st.Assume(smt.Forall([]smt.Bound{{Name: k.S, Sort: smt.Int}}, smt.Eq(smt.App(smt.V, "s_at", r, k), vc.Box(smt.App(smt.Int, "rune_at", v.T, k))), smt.App(smt.V, "s_at", r, k)))
+				return vc.Val{T: r, Ty: to}, true
+			}
+		}
+	}
 	if b, ok := to.Underlying().(*types.Basic); ok && b.Kind() == types.UnsafePointer && strings.HasPrefix(v.T.S, "(addr_of ") {
 		inner := strings.TrimSuffix(strings.TrimPrefix(v.T.S, "(addr_of "), ")")
 		return vc.Val{T: smt.T{S: inner, Sort: smt.V}, Ty: to}, true
 	}
 	return vc.Val{}, false
+}
+
+// ZeroOfSym: the zero value of a symbolic type as the prelude declares it.
+func (c *Ctx) ZeroOfSym(t *geval.SymType) vc.Val {
+	f := c.In.fact(t)
+	if f != nil && f.Kind == geval.KBasic {
+		switch geval.BasicClass(basicOf(c.In.basicName(t))) {
+		case "integer":
+			return vc.Val{T: smt.IntLit(0)}
+		case "bool":
+			return vc.Val{T: smt.False}
+		case "string":
+			return vc.Val{T: c.E.StrLit("")}
+		case "float", "complex":
+			return vc.Val{T: c.E.Decls.Const("fltlit!0", smt.V)}
+		}
+	}
+	nilable := c.In.Path.Preds["o-fork.Nilable("+t.R().Desc+")"] == geval.Yes
+	if f != nil {
+		switch f.Kind {
+		case geval.KPointer, geval.KSlice, geval.KMap, geval.KChan, geval.KSignature, geval.KInterface:
+			nilable = true
+		}
+	}
+	if nilable {
+		return vc.Val{T: vc.NilV}
+	}
+	return vc.Val{T: smt.App(smt.V, "zero_of", c.typeVal(t).T)}
 }
